@@ -18,8 +18,9 @@ import PyTough.Model.Refine
 import PyTough.Proofs.Refine
 import PyTough.Proofs.RefineLayers
 import PyTough.Proofs.RefineTriangle
+import PyTough.Proofs.RefineMoreConform
 namespace Props.C11
-open Model.Geo Model.Refine Gen.RefineTables Proofs.Refine
+open Model.Geo Model.Refine Gen.RefineTables Proofs.Refine Proofs.RefineMore
 
 /-! ### the model of `transition_type` IS the function in the source (whole finite domain) -/
 
@@ -86,6 +87,73 @@ theorem subdivision_boundary_identity (nn : Nat) (hnn : nn = 3 ∨ nn = 4) (side
   have := key nn (by rcases hnn with rfl | rfl <;> simp) sides (mem_sublists.mpr hs) hne
   rw [h] at this
   exact this
+
+/-! ### conformity: the sub-columns fit together edge to edge (no overlap along an edge, no gap, no hanging node)
+
+  `polyEdges subs` is the list of all directed edges `(a, b)` of all sub-columns (each sub-column
+  traversed in its stored, counter-clockwise node order); `refBoundary nn sides` the directed
+  boundary of the parent with exactly the refined sides split at their mid-side node. -/
+
+/-- For every set of refined sides of a 3- or 4-sided column (every `transition_column` entry, every
+    rotation), the sub-columns `refine` builds are CONFORMING:
+    1. no directed edge is used twice (two sub-columns never lie on the same side of an edge);
+    2. no sub-column runs along an edge and back;
+    3. every directed edge of a sub-column is EITHER an edge of the refined parent boundary, and then
+       no sub-column has the opposite edge, OR an interior edge, and then the opposite edge belongs
+       to a sub-column (pairwise cancellation in the interior);
+    4. every edge of the refined parent boundary belongs to a sub-column (nothing of the boundary
+       is left out, every refined side appears as its two halves);
+    5. no refined side is used unsplit, in either direction, by a sub-column — the mid-side node
+       (shared with the neighbouring column) never hangs inside a sub-column edge.
+    (`decide +kernel` over the whole generated table.) -/
+theorem subdivision_conforming (nn : Nat) (hnn : nn = 3 ∨ nn = 4) (sides : List Nat)
+    (hs : sides.Sublist (List.range nn)) (hne : sides ≠ []) (subs : List Poly)
+    (h : subdivision nn sides = some subs) :
+    (polyEdges subs).Nodup ∧
+    (∀ p ∈ subs, ∀ e ∈ cyc p, (e.2, e.1) ∉ cyc p) ∧
+    (∀ e ∈ polyEdges subs,
+        (e ∈ refBoundary nn sides ∧ (e.2, e.1) ∉ polyEdges subs) ∨
+        (e ∉ refBoundary nn sides ∧ (e.2, e.1) ∈ polyEdges subs)) ∧
+    (∀ e ∈ refBoundary nn sides, e ∈ polyEdges subs) ∧
+    (∀ i ∈ sides, (Vert.corner i, Vert.corner ((i + 1) % nn)) ∉ polyEdges subs ∧
+                  (Vert.corner ((i + 1) % nn), Vert.corner i) ∉ polyEdges subs) :=
+  (transition_table_conform nn (by rcases hnn with rfl | rfl <;> simp) sides (mem_sublists.mpr hs) hne subs
+    (by rw [h]; simp)).1
+
+/-- the same as ONE multiset identity on directed edges: the edges of all sub-columns are a
+    rearrangement of the refined parent boundary, a list `I` of interior edges, and the reverses of `I` -/
+theorem subdivision_edge_multiset (nn : Nat) (hnn : nn = 3 ∨ nn = 4) (sides : List Nat)
+    (hs : sides.Sublist (List.range nn)) (hne : sides ≠ []) (subs : List Poly)
+    (h : subdivision nn sides = some subs) :
+    ∃ I : List Edge, (polyEdges subs).Perm (refBoundary nn sides ++ I ++ I.map fun e => (e.2, e.1)) :=
+  ⟨pairedHalf (polyEdges subs), List.isPerm_iff.mp
+    (transition_table_conform nn (by rcases hnn with rfl | rfl <;> simp) sides (mem_sublists.mpr hs) hne subs
+      (by rw [h]; simp)).2⟩
+
+/-- sub-columns meet along FULL edges: an edge `(a, b)` of a sub-column `p` that is not part of the
+    refined parent boundary is the edge `(b, a)` of exactly one sub-column `q`, and `q ≠ p`.  Both
+    have the same two end nodes, so no node of one lies inside an edge of the other. -/
+theorem subcolumns_share_full_edges (nn : Nat) (hnn : nn = 3 ∨ nn = 4) (sides : List Nat)
+    (hs : sides.Sublist (List.range nn)) (hne : sides ≠ []) (subs : List Poly)
+    (h : subdivision nn sides = some subs) (p : Poly) (hp : p ∈ subs) (e : Edge) (he : e ∈ cyc p)
+    (hb : e ∉ refBoundary nn sides) :
+    ∃ q ∈ subs, q ≠ p ∧ (e.2, e.1) ∈ cyc q ∧ ∀ q' ∈ subs, (e.2, e.1) ∈ cyc q' → q' = q :=
+  conform_shared_edge (subdivision_conforming nn hnn sides hs hne subs h) p hp e he hb
+
+/-- every edge of the refined parent boundary (each half of a refined side, each unrefined side)
+    belongs to exactly one sub-column, and no sub-column has it reversed -/
+theorem boundary_edge_in_exactly_one_subcolumn (nn : Nat) (hnn : nn = 3 ∨ nn = 4) (sides : List Nat)
+    (hs : sides.Sublist (List.range nn)) (hne : sides ≠ []) (subs : List Poly)
+    (h : subdivision nn sides = some subs) (e : Edge) (he : e ∈ refBoundary nn sides) :
+    (∃ p ∈ subs, e ∈ cyc p ∧ ∀ p' ∈ subs, e ∈ cyc p' → p' = p) ∧ ∀ q ∈ subs, (e.2, e.1) ∉ cyc q :=
+  conform_boundary_edge (subdivision_conforming nn hnn sides hs hne subs h) e he
+
+-- non-vacuity: in the quadrilateral with sides 0 and 3 refined, the interior edge (mid 0 3 → centre) of
+-- the first sub-column is the edge (centre → mid 0 3) of the second
+example : ((Vert.mid 0 3, Vert.centre) : Edge) ∈ cyc [Vert.corner 3, .mid 0 3, .centre] ∧
+    (Vert.mid 0 3, Vert.centre) ∉ refBoundary 4 [0, 3] ∧
+    (Vert.centre, Vert.mid 0 3) ∈ cyc [Vert.mid 0 3, .corner 0, .mid 0 1, .centre] := by decide
+example : ((Vert.corner 3, Vert.mid 0 3) : Edge) ∈ refBoundary 4 [0, 3] := by decide
 
 /-! ### area is additive over any family satisfying the boundary identity -/
 
@@ -179,6 +247,47 @@ theorem split_column_conserves_area (ρ : Val) (i0 : Nat) (hi : i0 < 4) :
   have := area_additive_over_chain ρ 4 [] _ (split_column_boundary_identity i0 (List.mem_range.mpr hi))
   simp only [List.map_cons, List.map_nil, sumRat_cons, sumRat_nil] at this
   rw [← this]; grind
+
+/-- the special cases of `decompose_column` (every start node) and `split_column` (every chosen
+    node) are conforming in the same sense (clauses 1-4 of `subdivision_conforming`; no side is
+    refined), and their edges satisfy the multiset identity -/
+theorem decompose_cases_conforming (c : DecompCase) (hc : c ∈ decomposeCases) (i0 : Nat) (hi : i0 < c.nn) :
+    let subs := subdivide c.nn i0 c.polys
+    (polyEdges subs).Nodup ∧
+    (∀ p ∈ subs, ∀ e ∈ cyc p, (e.2, e.1) ∉ cyc p) ∧
+    (∀ e ∈ polyEdges subs,
+        (e ∈ refBoundary c.nn [] ∧ (e.2, e.1) ∉ polyEdges subs) ∨
+        (e ∉ refBoundary c.nn [] ∧ (e.2, e.1) ∈ polyEdges subs)) ∧
+    (∀ e ∈ refBoundary c.nn [], e ∈ polyEdges subs) ∧
+    ∃ I : List Edge, (polyEdges subs).Perm (refBoundary c.nn [] ++ I ++ I.map fun e => (e.2, e.1)) := by
+  have k := decompose_table_conform c hc i0 (List.mem_range.mpr hi)
+  obtain ⟨h1, h2, h3, h4, _⟩ := k.1
+  exact ⟨h1, h2, h3, h4, _, List.isPerm_iff.mp k.2⟩
+
+/-- the pieces `decompose_column` cuts a 5…8-sided column into (special cases) meet along full edges -/
+theorem decompose_subcolumns_share_full_edges (c : DecompCase) (hc : c ∈ decomposeCases) (i0 : Nat)
+    (hi : i0 < c.nn) (p : Poly) (hp : p ∈ subdivide c.nn i0 c.polys) (e : Edge) (he : e ∈ cyc p)
+    (hb : e ∉ refBoundary c.nn []) :
+    ∃ q ∈ subdivide c.nn i0 c.polys, q ≠ p ∧ (e.2, e.1) ∈ cyc q ∧
+      ∀ q' ∈ subdivide c.nn i0 c.polys, (e.2, e.1) ∈ cyc q' → q' = q :=
+  conform_shared_edge (decompose_table_conform c hc i0 (List.mem_range.mpr hi)).1 p hp e he hb
+
+theorem split_column_conforming (i0 : Nat) (hi : i0 < 4) :
+    let subs := [splitOld i0, splitNewPoly i0]
+    (polyEdges subs).Nodup ∧
+    (∀ e ∈ polyEdges subs,
+        (e ∈ refBoundary 4 [] ∧ (e.2, e.1) ∉ polyEdges subs) ∨
+        (e ∉ refBoundary 4 [] ∧ (e.2, e.1) ∈ polyEdges subs)) ∧
+    (∀ e ∈ refBoundary 4 [], e ∈ polyEdges subs) ∧
+    ∃ I : List Edge, (polyEdges subs).Perm (refBoundary 4 [] ++ I ++ I.map fun e => (e.2, e.1)) := by
+  have k := split_table_conform i0 (List.mem_range.mpr hi)
+  obtain ⟨h1, _, h3, h4, _⟩ := k.1
+  exact ⟨h1, h3, h4, _, List.isPerm_iff.mp k.2⟩
+
+-- non-vacuity: there are special cases, e.g. two for hexagons; the hexagon cut into two quadrilaterals shares the diagonal 3-0
+example : (decomposeCases.filter fun c => c.nn = 6).length = 2 := by decide
+example : ((Vert.corner 3, Vert.corner 0) : Edge) ∈ cyc [Vert.corner 0, .corner 1, .corner 2, .corner 3] ∧
+    (Vert.corner 3, Vert.corner 0) ∉ refBoundary 6 [] := by decide
 
 /-! ### the sub-columns of a refined triangle are positive fractions of it -/
 
